@@ -84,7 +84,7 @@ def _model_reject(prop, out):
     """The strict invariants of this property on the model of the code as written: TLC must reject."""
     text = _cfg('RemotePickle_fixed.cfg').replace('Algo = "fixed"', 'Algo = "asis"').replace('SeedCopyreg = "live"', 'SeedCopyreg = "none"').replace('KwOnlyOK = TRUE', 'KwOnlyOK = FALSE')
     text = '\n'.join(l for l in text.splitlines() if not l.startswith('INVARIANT Inv_C') or l.startswith('INVARIANT Inv_' + prop)) + '\n'
-    out['reject'] = tlc.run('RemotePickleMC', cfg_text=text, env={'RP_SET': 'wit'}, workers=2, timeout=600,
+    out['reject'] = tlc.run('RemotePickleMC', cfg_text=text, env={'RP_SET': 'wit'}, workers=1, timeout=900,
                             name='reject', must_complete=False)
 
 
@@ -92,7 +92,7 @@ def _model_reject_guard(out):
     """The corrected design with a context.__init__ that refuses to start on the left-over of a failed load
     (InitGuard = TRUE): TLC must reject `FailedLoad ; Load`."""
     text = _cfg('RemotePickle_fixed.cfg').replace('InitGuard = FALSE', 'InitGuard = TRUE')
-    out['reject_guard'] = tlc.run('RemotePickleMC', cfg_text=text, env={'RP_SET': 'wit'}, workers=2, timeout=600,
+    out['reject_guard'] = tlc.run('RemotePickleMC', cfg_text=text, env={'RP_SET': 'wit'}, workers=1, timeout=900,
                                   name='rejectguard', must_complete=False)
 
 
@@ -102,7 +102,7 @@ def _model_reject_shared(prop, out):
     text = _cfg('RemotePickle_asis.cfg').replace('SharedCtx = FALSE', 'SharedCtx = TRUE')
     keep = ('INVARIANT Inv_' + prop, 'INVARIANT AsIs_' + prop)
     text = '\n'.join(l for l in text.splitlines() if not l.startswith('INVARIANT') or l.startswith(keep)) + '\n'
-    out['reject_shared'] = tlc.run('RemotePickleMC', cfg_text=text, env={'RP_SET': 'par'}, workers=2, timeout=600,
+    out['reject_shared'] = tlc.run('RemotePickleMC', cfg_text=text, env={'RP_SET': 'par'}, workers=1, timeout=900,
                                    name='rejectshared', must_complete=False)
 
 
@@ -110,12 +110,20 @@ def _model_reject_kwonly(prop, out):
     """remote_reduce before repo commit 35e075b (KwOnlyOK = FALSE: keyword-only __getnewargs_ex__ -> RuntimeError) on the
     otherwise corrected design: TLC must reject it."""
     text = _cfg('RemotePickle_fixed.cfg').replace('KwOnlyOK = TRUE', 'KwOnlyOK = FALSE')
-    out['reject_kwonly'] = tlc.run('RemotePickleMC', cfg_text=text, env={'RP_SET': 'wit'}, workers=2, timeout=600,
+    out['reject_kwonly'] = tlc.run('RemotePickleMC', cfg_text=text, env={'RP_SET': 'wit'}, workers=1, timeout=900,
                                    name='rejectkwonly', must_complete=False)
 
 
+def _model_reject_cachebyid(prop, out):
+    """The opt-in check cache keyed by the address of the class (CacheById = TRUE): after short-lived classes were
+    pickled and dropped, a new opt-in class can be answered with their stale entry - TLC must reject it."""
+    text = _cfg('RemotePickle_fixed.cfg').replace('CacheById = FALSE', 'CacheById = TRUE')
+    out['reject_cachebyid'] = tlc.run('RemotePickleMC', cfg_text=text, env={'RP_SET': 'wit'}, workers=1, timeout=900,
+                                      name='rejectcachebyid', must_complete=False)
+
+
 def _model_wit(out):
-    out['wit'] = tlc.run('RemotePickleMC', 'RemotePickle_wit.cfg', env={'RP_SET': 'wit'}, workers=2, timeout=600,
+    out['wit'] = tlc.run('RemotePickleMC', 'RemotePickle_wit.cfg', env={'RP_SET': 'wit'}, workers=1, timeout=900,
                          name='wit', must_complete=False)
 
 
@@ -194,6 +202,9 @@ def _expand(prop, tier, cases, pool):
                     s2['api'] = 'file'
                 if not scn['marker'] and ((n >> 1) + j) % 2:   # duck-typed: a subclass that inherits the remote-aware __getstate__
                     s2['ovar'] = 'sub'
+                if scn['marker'] and ((n >> 1) + j) % 2:       # marker-derived: a class that declares __slots__ and keeps its attributes there
+                    s2['ovar'] = 'slots'
+                s2['gvar'] = ('plain', 'kwonly', 'wrapped')[((n >> 2) + j) % 3]   # spelling of __getstate__(self, remote=False)
                 if prop == 'C13':            # plain nodes: classes with/without __getstate__/__setstate__/__reduce__/__getnewargs__/__slots__/**kw
                     s2['pvar'] = _PVARS[(n + j) % len(_PVARS)]
                     if s2['pvar'] == 'slots' and p in (0, 1):      # pickle itself refuses __slots__ without __getstate__ there
@@ -240,7 +251,7 @@ def _judge(prop, records, name):
     """Judge distinct records only (the operators do not read protocol / container type)."""
     uniq, index = {}, []
     for r in records:
-        scn = {k: v for k, v in r['scn'].items() if k not in ('proto', 'ctype', 'pvar', 'ovar', 'api')}
+        scn = {k: v for k, v in r['scn'].items() if k not in ('proto', 'ctype', 'pvar', 'ovar', 'api', 'gvar')}
         key = json.dumps([scn, r['obs']], sort_keys=True)
         if key not in uniq:
             uniq[key] = {'id': 'u%d' % len(uniq), 'scn': r['scn'], 'obs': r['obs']}
@@ -264,7 +275,7 @@ def _replay(prop, replay):
     print('observed:', json.dumps(obs)[:3000])
     for clause, sig in per[0]:
         print('VIOLATION property=%s replay=(given) clause=%s' % (prop, clause))
-        print('  signature: %s|%s|%s|out=%s|api=%s' % (prop, clause, sig, _outs(scn, obs), scn.get('api', 'loads')))
+        print('  signature: %s|%s|%s|out=%s|api=%s|churn=%s' % (prop, clause, sig, _outs(scn, obs), scn.get('api', 'loads'), 'T' if scn.get('churn') else 'F'))
     return 1 if per[0] else 0
 
 
@@ -291,7 +302,8 @@ def run(prop, tier, replay=None):
                threading.Thread(target=_model_wit, args=(out,)),
                threading.Thread(target=_model_reject_guard, args=(out,)),
                threading.Thread(target=_model_reject_shared, args=(prop, out)),
-               threading.Thread(target=_model_reject_kwonly, args=(prop, out))]
+               threading.Thread(target=_model_reject_kwonly, args=(prop, out)),
+               threading.Thread(target=_model_reject_cachebyid, args=(prop, out))]
         if tier == 'thorough':
             ths.append(threading.Thread(target=_model_live, args=(out,)))
         errs = []
@@ -328,7 +340,7 @@ def run(prop, tier, replay=None):
         ev.add_tlc('judge: %s operators on %d real executions (%d distinct records)' % (prop, len(records), nuniq), rj, role='judge')
         for (n, s, m), o, fl in zip(jobs, obss, per):
             for clause, sig in fl:
-                full = '%s|%s|%s|out=%s|api=%s' % (prop, clause, sig, _outs(s, o), s.get('api', 'loads'))
+                full = '%s|%s|%s|out=%s|api=%s|churn=%s' % (prop, clause, sig, _outs(s, o), s.get('api', 'loads'), 'T' if s.get('churn') else 'F')
                 what = '%s fails: %s -> %s' % (clause, _describe(s, m), _outs(s, o))
                 violations.append(Violation(prop, full, what, {'scn': s, 'nest_at': m}))
 
@@ -388,6 +400,10 @@ def run(prop, tier, replay=None):
     ev.add_tlc('vacuity: corrected design + remote_reduce before 35e075b (keyword-only __getnewargs_ex__ raises) (must be rejected)', rk, role='vacuity')
     if not (rk.error or '').startswith('invariant:Inv_C1'):
         raise MachineryError('TLC does not reject a remote_reduce that refuses keyword-only __getnewargs_ex__: %s' % rk.error)
+    rc_ = out['reject_cachebyid']
+    ev.add_tlc('vacuity: corrected design + opt-in check cache keyed by class address, after churn of short-lived classes (must be rejected)', rc_, role='vacuity')
+    if not (rc_.error or '').startswith('invariant:Inv_C1'):
+        raise MachineryError('TLC does not reject an opt-in check cache keyed by class address: %s' % rc_.error)
     rs = out['reject_shared']
     ev.add_tlc('vacuity: code as written + process-wide load context, two loading threads (must be rejected)', rs, role='vacuity')
     if not (rs.error or '').startswith(('invariant:Inv_' + prop, 'invariant:AsIs_' + prop)):
@@ -395,10 +411,10 @@ def run(prop, tier, replay=None):
     ev.add_tlc('witnesses (every antecedent / fault reached)', rw, role='vacuity')
     reached = sorted({x[0] for x in rw.tags.get('WIT', [])})
     need = ['Concurrency', 'Copyreg', 'DumpWarning', 'Failure', 'MemoGet', 'OptInFalse', 'PatchDelivered', 'Residue', 'Siblings',
-            'StdOp', 'StdPath', 'Warning', 'AfterFail', 'Falsy', 'LateCopyreg', 'LowProto', 'FailedThenLoad', 'ParPlain', 'NestedResidue', 'NewArgsEx', 'KwOnly']
+            'StdOp', 'StdPath', 'Warning', 'AfterFail', 'Falsy', 'LateCopyreg', 'LowProto', 'FailedThenLoad', 'ParPlain', 'NestedResidue', 'NewArgsEx', 'KwOnly', 'Churn']
     if rw.error or [w for w in need if w not in reached]:
         raise MachineryError('witnesses not reached: %s (%s)' % ([w for w in need if w not in reached], rw.error))
-    ev.cov['witnesses'] = {'reached': reached, 'asis_model_rejected_by': rrj.error, 'init_guard_rejected_by': rg.error, 'shared_context_rejected_by': rs.error, 'kwonly_prefix_rejected_by': rk.error}
+    ev.cov['witnesses'] = {'reached': reached, 'asis_model_rejected_by': rrj.error, 'init_guard_rejected_by': rg.error, 'shared_context_rejected_by': rs.error, 'kwonly_prefix_rejected_by': rk.error, 'cache_by_address_rejected_by': rc_.error}
     if 'live' in out:
         ev.add_tlc('liveness: every scenario terminates', out['live'], role='vacuity')
         if out['live'].error or not out['live'].completed:
@@ -446,5 +462,5 @@ def _describe(s, nest):
                                         ','.join('%s->%d' % (e['k'], e['to']) for e in nd['ent'])) for i, nd in enumerate(s['g'], 1))
     loads = '; '.join('%sloads(patch=%s)%s' % ('T%d:' % L['thr'] if s['par'] else '', json.dumps(G.patch_dict(L['patch'])),
                                              '' if L['fail'] == 'none' else ' with %s@%d' % (L['fail'], L['at'])) for L in s['loads'])
-    return 'graph {%s} op=%s%s remote=%s %s proto=%s ctype=%s%s: %s' % (nodes, s['op'], ' (dump/load on a file)' if s.get('api') == 'file' else '', s['remote'], 'marker' if s['marker'] else ('duck-subclass' if s.get('ovar') == 'sub' else 'duck'),
-                                                                    s.get('proto'), s.get('ctype'), ' nest_at=%s' % nest if nest else '', loads)
+    return 'graph {%s} op=%s%s remote=%s %s proto=%s ctype=%s%s: %s' % (nodes, s['op'], ' (dump/load on a file)' if s.get('api') == 'file' else '', s['remote'], ('marker-slots' if s.get('ovar') == 'slots' else 'marker') if s['marker'] else ('duck-subclass' if s.get('ovar') == 'sub' else 'duck'),
+                                                                    s.get('proto'), s.get('ctype'), (' nest_at=%s' % nest if nest else '') + ('' if s.get('gvar', 'plain') == 'plain' else ' getstate=' + s['gvar']) + (' after-churn' if s.get('churn') else ''), loads)
